@@ -131,7 +131,7 @@ theorem C15_fallback_two_instances_witness :
         [.step 0, .step 1, .step 0, .step 1]).trace
       [(2, 1)] = false := by decide
 
-/-- **Node-id renewal in the wrong tier (as found, repaired by `fix:` 08374db).** The claim lives in
+/-- **Node-id renewal in the wrong tier (as found, repaired by `fix:` eac0b3f).** The claim lives in
 the shared tier; the heartbeat wrote the node-local tier, i.e. nothing the other nodes can see.  Node
 0 claims slot 1 and renews every 30 s; after 90 s node 1 is given slot 1 as well. -/
 theorem C15_node_renew_asFound_witness :
